@@ -14,6 +14,11 @@ from twisted.python import failure                      # noqa: E402
 from twisted.internet.error import ConnectionDone, ConnectionLost  # noqa: E402
 from zope.interface import implementer                  # noqa: E402
 
+from twisted import logger as _tlogger                  # noqa: E402
+
+# callbacks that raise are part of several scenarios: keep Twisted from printing every logged failure
+_tlogger.globalLogBeginner.beginLoggingTo([lambda event: None], redirectStandardIO=False, discardBuffer=True)
+
 import txdbus.client                                    # noqa: E402
 import txdbus.protocol                                  # noqa: E402
 from txdbus import message, marshal                     # noqa: E402
